@@ -235,13 +235,21 @@ func checkArrivalOrderIndependence(c *core.Ctx, rule string, only ...string) int
 	} else {
 		und("sam.writePairwiseAlignment")
 	}
-	perms := permutations(4)
+	nItems := 4
+	if c.Tier == "thorough" {
+		nItems = 5 // all 120 arrival orders of five items
+	}
+	perms := permutations(nItems)
+	inOrder := make([]int, nItems)
+	for i := range inOrder {
+		inOrder[i] = i
+	}
 	for _, cn := range cons {
 		if !want(cn.name) {
 			continue
 		}
 		n++
-		ref, err := cn.run([]int{0, 1, 2, 3})
+		ref, err := cn.run(inOrder)
 		if err != nil {
 			c.Und(rule+"/"+cn.name, cn.pos, "cannot evaluate: %v", err)
 			continue
